@@ -38,9 +38,9 @@ ASSUMPTIONS = [
     'streams own their rows: phase views (ms["l"]), flow proxies and linked streams are not generated; aliasing is limited to '
     'the same stream appearing in several roles (receiver among the inlets, feed as outlet, source as destination)',
     'the model describes the code with fixes_proposed/C01-1..C01-8, C10-2 and C12-1 applied; until they are committed the '
-    'check reports the corresponding failing inputs; six combinations that the code rejects or mishandles are mirrored and '
-    'listed as known findings (Stream.split_to onto a MultiStream outlet, two argument forms of Stream.copy_flow, three of '
-    'MultiStream.copy_flow)',
+    'check reports the corresponding failing inputs; likewise fixes_proposed/C01-9..C01-14 (the six former known findings)',
+    'MultiStream.copy_flow refuses a multi-phase source with another phase tuple (ValueError, like its same-chemicals '
+    'requirement): that refusal is outside the quantifier, silent loss or duplication is not',
     'an empty single-phase outlet whose phase a multi-phase feed lacks is not generated (its conversion is C12-3)',
     'after a Python exception the case ends: the state left behind by a failed call is not compared',
 ]
@@ -452,13 +452,11 @@ def oracle_copy_multi(U, line, t, before, exc, raised):
     same_chem = list(db['pkg']) == list(spk)
     U.tags.add(f'in:copy:{cfg}.{form}' + ('.exclude' if ex else '') + ('.phase' if ph != '*' else ''))
     if exc is not None:
-        ok_phases = all(resolvable(dph, p) for p, r in sb['rows'] if any(r) or not sb['multi'])
+        # a multi-phase source must have the destination's phase tuple (rows are paired by position; the call says so),
+        # a single-phase source a phase the destination has: otherwise the refusal is legitimate
+        ok_phases = (dph == sph) if sb['multi'] else resolvable(dph, sph[0])
         inq = same_chem and ok_phases and (ph == '*' or resolvable(dph, ph))
-        if not inq: return None
-        if cfg == 'M<-M.different-phases':
-            return (f'copy:{cfg}:rows-by-position', f'`{line}` raised {type(exc).__name__}: {str(exc)[:100]} (the destination\'s '
-                    f'phase index is applied to the rows of a source with other phases)')
-        return raised(cfg)
+        return raised(cfg) if inq else None
     nd, ns = U.totals(U.streams[d]), U.totals(U.streams[s])
     for c in spk:
         got = nd.get(c, 0)
@@ -638,7 +636,7 @@ def gen_op(rng, U):
         good = [i for i in idx if fp <= set(U.pkg_of(S[i]))]
         pool = good if (good and rng.random() < 0.93) else idx
         if not U.is_multi(S[f]) and rng.random() < 0.85:
-            # a single-phase feed onto a multi-phase outlet is rejected by the code (known finding): keep its share small
+            # a single-phase feed mostly onto single-phase outlets (a multi-phase outlet just becomes single-phase, C01-9)
             sp = [i for i in pool if not U.is_multi(S[i])]
             if sp: pool = sp
         elif U.is_multi(S[f]) and rng.random() < 0.5:
@@ -938,15 +936,15 @@ def corpus():
                   'new 0 S l 0,0,0,0,0,0', 'split 1 0 3 s 1/2']),
         # receiver several times among the inlets
         Case(P + ['new 0 S l 1,2,0,0,0,0', 'new 0 M gl 1,2,4,0,0,0;0,0,4,0,0,0', 'mix 0 0,0,1', 'sep 0 1']),
-        # single-phase feed, multi-phase outlet
+        # single-phase feed, multi-phase outlet (C01-9)
         Case(P + ['new 0 S g 8,8,0,0,0,0', 'new 0 M gl 1,1,1,1,1,1;1,1,1,1,1,1', 'new 0 S l 1,1,1,1,1,1', 'split 0 1 2 s 1/4']),
-        # copy_flow corner cases
+        # copy_flow corner cases (C01-11, C01-10)
         Case(P + ['new 0 S l 1,1,1,1,1,1', 'new 1 S g 2,3,0', 'copy 0 1 =0 1 0']),
         Case(P + ['new 1 S l 1,1,1', 'new 1 S g 2,3,4', 'copy 0 1 =1 1 1']),
         # two splits with different phase tuples into the same multi-phase outlet (stale phase views, C12-1)
         Case(P + ['new 0 M gl 0,0,0,0,0,0;0,4,0,0,0,0', 'new 0 M ls 0,8,0,0,0,0;0,0,2,0,0,0', 'new 0 M gl 0,0,0,0,0,0;0,0,0,0,0,0',
                   'new 0 S l 0,0,0,0,0,0', 'split 0 2 3 s 1/2', 'split 1 2 3 s 1/2']),
-        # MultiStream.copy_flow: whole stream, equally many phases; then the three mirrored defects
+        # MultiStream.copy_flow: whole stream, equally many phases; then the inputs of C01-12 / C01-13 / C01-14
         Case(P + ['new 0 M gl 1,1,1,1,1,1;0,0,0,0,0,0', 'new 0 M Ls 0,2,0,0,0,0;0,0,0,0,3,0', 'copy 0 1 * 1 0 *']),
         Case(['pkg 0,1,2', 'new 0 M gl 0,0,0;0,0,0', 'new 0 M gls 0,0,0;0,0,0;0,5,0', 'copy 0 1 * 1 0 *']),
         Case(['pkg 0,1,2', 'new 0 M gl 0,0,0;0,0,0', 'new 0 S g 1,2,3', 'copy 0 1 1 1 1 l']),
